@@ -28,20 +28,21 @@ ASSUMPTIONS = [
 TRUSTED_EXTRA = ["reference parser in harness/props/c02.py (str.split based, written from the format definitions)"]
 
 MANIFEST = {
-    "text": "Lean 4 model of the delimiter/field-offset table, CR adjustment, right-aligned zero-filled digit matrix, right-padded "
-            "identifier matrix, signed/optional ints, list columns, k-line roles, wrapped-FASTA seq_lens arithmetic, SAM extra column, "
-            "VCF POS-1, interior-comment removal. Unbounded theorems: fieldTable_spec (every byte string with uniform column count: "
-            "offset table = lines.map(splitOn TAB)), digitMatrix_value (row independence), intColumn_spec (digit-matrix path and sign "
-            "path both give the standard reading), idColumn_spec, listColumn_spec, optIntColumn_spec, kline_roles (FASTA/FASTQ line "
-            "roles from newline positions), fasta_seqLens, crAdjust/crField_spec, vcf_pos; refutations of the four shipped rules that "
-            "were repaired (splitRowsOld, optIntColumnOld, commentTableOld, seqLensOld). Per-format schemas, comment characters, "
-            "k-line layout and coordinate shifts are re-extracted from the running package into Gen/C02.lean every run and checked "
-            "against the documented formats by decide. Correspondence: real parser vs Lean model vs Lean spec vs pure-Python "
-            "reference parser on grammar-generated files of every supported text format (16 formats, 6 VCF buffer flavours).",
-    "note": "floats are compared by value to 1e-12 (conversion itself is C18) and stay text in the Lean model; typed INFO header "
-            "dispatch, genotype matrices, the SAM rest-of-line column and the per-file composition (table + typed columns, "
-            "parse_delimited) are corresponded, not proved; files always end with a newline (C01 covers the rest). Eight defects "
-            "found and fixed (known_findings.json).",
+    "text": "Lean 4 model of the delimiter/field-offset table (incl. the column-count validation), CR adjustment, right-aligned "
+            "zero-filled digit matrix, right-padded identifier matrix, signed/optional ints, list columns, k-line roles, wrapped-FASTA "
+            "seq_lens arithmetic, SAM rest-of-line column, VCF POS-1, typed INFO key lookup, genotype triplet codes, interior-comment "
+            "removal. Unbounded theorems: parse_delimited (for every schema of the modelled column types and every LF or uniformly "
+            "CRLF file with one field per column: offset table + CR rule + typed extraction = reference parser, one entry per line), "
+            "fieldTable_spec, digitMatrix_value (row independence), intColumn_spec (both code paths), typedColumn_spec, idColumn_spec, "
+            "listColumn_spec, optIntColumn_spec, crAdjust_crlf, kline_roles, sam_extra (rest of line = remaining fields joined by TAB), "
+            "info_subfields_spec / info_lookup_partial, genotype_triplets (all 32 genotypes, int8 wrap included), fasta_seqLens, vcf_pos; "
+            "refutations of the four shipped rules that were repaired. Per-format schemas, comment characters, k-line layout and "
+            "coordinate shifts are re-extracted from the running package into Gen/C02.lean every run and checked against the "
+            "documented formats by decide. Correspondence: real parser vs Lean model vs Lean spec vs pure-Python reference parser on "
+            "grammar-generated files of 16 formats and 6 VCF buffer flavours (typed INFO and genotype columns now also in the model).",
+    "note": "floats are compared by value to 1e-12 (conversion itself is C18) and stay text in the Lean model; the header-type "
+            "dispatch of INFO keys and the flat-buffer index arithmetic of NamedBufferExtractor are corresponded (info_lookup_partial "
+            "names the gap); files always end with a newline (C01 covers the rest). Nine defects found and fixed (known_findings.json).",
     "technique": "Lean 4 proof over an executable model + schemas regenerated from source (decide) + differential correspondence with the implementation",
     "design": "§6 C02",
 }
@@ -427,6 +428,8 @@ def g_vcf(rng, big, flavour):
                     gt = rng.choice("01") + "|" + rng.choice("01")
                 elif flavour == "PhasedHaplotypeVCFMatrixBuffer":
                     gt = rng.choice("01234.") + "|" + rng.choice("01234.")
+                elif flavour == "VCFBuffer2" and rng.random() < 0.25:
+                    gt = rng.choice(["0", "1", ".", "0/1/2", "10|2"])      # haploid / polyploid / two-digit allele calls
                 else:
                     gt = rng.choice("012.") + rng.choice("|/") + rng.choice("012.")
                 f.append(gt + (":" + g_uint(rng, rng.choice([1, 2, 3])) if extra_fmt else ""))
@@ -492,7 +495,7 @@ def cases(tier, rng):
     # 2. grammar-directed random files
     per = 60 * mult
     for fmt, F in FORMATS.items():
-        for _ in range(per):
+        for _ in range(per * 4 if fmt == "vcf" else per):        # six buffer flavours share the VCF budget
             crlf = rng.random() < 0.2
             if fmt == "vcf":
                 fl = rng.choice(VCF_FLAVOURS)
